@@ -1391,3 +1391,125 @@ Proof.
     + do 2 right. left. destruct (Z.ltb_spec c (W - 1)); [|lia]. left. ring.
     + do 3 right. destruct (Z.ltb_spec r (H - 1)); [|lia]. left. ring.
 Qed.
+
+(* ------------------------------------------------------------------ K. Delaunay neighbours: CSR -> padded rows *)
+Lemma maxZ0_fold l : forall a, a <= fold_left Z.max l a /\ forall x, In x l -> x <= fold_left Z.max l a.
+Proof.
+  induction l as [|y l IH]; intros a; cbn [fold_left]; [split; [lia | intros x []]|].
+  destruct (IH (Z.max a y)) as [A B]. split; [lia|]. intros x [<-|Hx]; [lia | auto].
+Qed.
+Lemma maxZ0_ge l x : In x l -> x <= maxZ0 l.
+Proof. apply maxZ0_fold. Qed.
+
+(* row k of the padded array: the slice indices[indptr[k] : indptr[k+1]] followed by -1's; sizes[k] is the slice length *)
+Theorem del_neighbors_rows indptr indices P k : length indptr = S P -> (k < P)%nat ->
+  0 <= nth k indptr 0 <= nth (S k) indptr 0 -> nth (S k) indptr 0 <= Z.of_nat (length indices) ->
+  let '(rows, sizes) := del_neighbors indptr indices P in
+  let a := Z.to_nat (nth k indptr 0) in let b := Z.to_nat (nth (S k) indptr 0) in
+  nth k sizes 0 = Z.of_nat (b - a) /\
+  firstn (b - a) (nth k rows []) = firstn (b - a) (skipn a indices) /\
+  length (firstn (b - a) (skipn a indices)) = (b - a)%nat /\
+  forall j, (b - a <= j)%nat -> nth j (nth k rows []) (-1) = -1.
+Proof.
+  intros HL Hk Hmono Hb. unfold del_neighbors. cbv zeta.
+  set (sizes := map (fun k => nth (S k) indptr 0 - nth k indptr 0) (seq 0 (length indptr - 1))).
+  set (a := Z.to_nat (nth k indptr 0)). set (b := Z.to_nat (nth (S k) indptr 0)).
+  assert (Es : nth k sizes 0 = Z.of_nat (b - a)).
+  { unfold sizes. rewrite (nth_map_lt _ _ _ _ 0%nat) by (rewrite seq_length; lia).
+    rewrite seq_nth by lia. cbn [plus]. unfold a, b. lia. }
+  assert (Hw : (b - a <= Z.to_nat (maxZ0 sizes))%nat).
+  { assert (In (nth k sizes 0) sizes) by (apply nth_In; unfold sizes; rewrite map_length, seq_length; lia).
+    apply maxZ0_ge in H. lia. }
+  assert (Lr : length (firstn (b - a) (skipn a indices)) = (b - a)%nat).
+  { rewrite firstn_length, skipn_length. unfold a, b. lia. }
+  split; [exact Es|].
+  rewrite (nth_map_lt _ _ _ _ 0%nat) by (rewrite seq_length; lia). rewrite seq_nth by lia. cbn [plus].
+  fold a b. split; [|split; [exact Lr|]].
+  - rewrite firstn_app, Lr, Nat.sub_diag. cbn [firstn]. rewrite app_nil_r.
+    rewrite firstn_all2 by (rewrite Lr; lia). reflexivity.
+  - intros j Hj. rewrite app_nth2 by (rewrite Lr; lia). rewrite Lr.
+    destruct (lt_dec (j - (b - a)) (Z.to_nat (maxZ0 sizes) - (b - a))) as [Q|Q].
+    + apply nth_repeat_lt. exact Q.
+    + apply nth_overflow. rewrite repeat_length. lia.
+Qed.
+
+Local Open Scope R_scope.
+(* ------------------------------------------------------------------ L. assembled statements *)
+Theorem slim_for_sub_blocks m subs : length subs = count_unmasked m ->
+  length (slim_for_sub m subs) = total_sub subs /\
+  forall i s d, (i < length subs)%nat -> (s < total_sub subs)%nat ->
+    (nth s (slim_for_sub m subs) d = i <-> (offset subs i <= s < offset subs i + sq_n (nth i subs 0))%nat).
+Proof.
+  intros HL. rewrite slim_for_sub_spec, <- HL. split; [apply sfs_list_length|].
+  intros i s d Hi Hs. apply sfs_block; assumption.
+Qed.
+
+(* the code's weight row for a sub-pixel inside a simplex is the triple of area ratios *)
+Theorem del_weight_row_area (mesh : list Rpt) (p : Rpt) a b c : b <> (-1)%Z ->
+  @del_weight_row ROps mesh p [a; b; c] =
+  let '(w0, w1, w2) := area_weights (@vertex ROps mesh [a; b; c] 0) (@vertex ROps mesh [a; b; c] 1) (@vertex ROps mesh [a; b; c] 2) p in
+  [w0; w1; w2].
+Proof.
+  intros Hb. unfold del_weight_row. cbn [nthZ nth]. destruct (Z.eqb_spec b (-1)); [contradiction|]. cbn [negb].
+  unfold area_weights. cbv zeta. runfold. reflexivity.
+Qed.
+Theorem del_weight_row_single (mesh : list Rpt) (p : Rpt) a : @del_weight_row ROps mesh p [a; (-1)%Z; (-1)%Z] = [1; 0; 0].
+Proof. unfold del_weight_row. cbn [nthZ nth]. cbn. unfold one, zero. cbn. reflexivity. Qed.
+
+(* the sparse encodings of the two mappers encode their dense matrices *)
+Theorem rect_unique_encodes_dense m subs (grid : list Rpt) n0 n1 (b : R) :
+  length subs = count_unmasked m -> (forall i, (i < length subs)%nat -> (1 <= nth i subs 0)%nat) ->
+  length grid = total_sub subs -> (0 < n0)%Z -> (0 < n1)%Z -> 0 < b ->
+  let g := @overlay ROps (n0, n1) grid b in
+  let '(mp, sz, wt) := @rect_psw ROps g grid in
+  let P := Z.to_nat (n0 * n1) in
+  exists M rows,
+    @mapping_matrix ROps mp sz wt P (count_unmasked m) (slim_for_sub m subs) (@sub_fractions ROps subs) = Ok M /\
+    @unique_from ROps mp sz wt P subs = Ok rows /\ length rows = count_unmasked m /\
+    forall i, (i < count_unmasked m)%nat ->
+      let '(u, w, n) := nth i rows ([], [], 0%nat) in
+      (n <= length u)%nat /\ length w = length u /\ NoDup (firstn n u)
+      /\ (forall k, (k < n)%nat -> (0 <= nth k u (-1) < Z.of_nat P)%Z)
+      /\ (forall k, (n <= k)%nat -> nth k u (-1)%Z = (-1)%Z /\ nth k w 0 = 0)
+      /\ (forall p, (p < P)%nat ->
+            sumR (map (fun k => if Z.eqb (nth k u (-1)%Z) (Z.of_nat p) then nth k w 0 else 0) (seq 0 n)) = mgetR M i p).
+Proof.
+  intros HL HS HG H0 H1 Hb. cbv zeta.
+  pose proof (rect_mapper_ok m subs grid n0 n1 b HL HS HG H0 H1 Hb) as HM.
+  destruct (@rect_psw ROps (@overlay ROps (n0, n1) grid b) grid) as [[mp sz] wt] eqn:E. cbn [fst snd] in HM.
+  destruct (entry_block_formula m subs _ mp sz wt HM) as [M [EM _]].
+  destruct (unique_encodes_dense m subs _ mp sz wt HM M EM) as [rows [Er [Lr Hr]]].
+  exists M, rows. repeat split; auto.
+Qed.
+
+Theorem del_unique_encodes_dense m subs (grid points : list Rpt) simplices simplex_for :
+  length subs = count_unmasked m -> (forall i, (i < length subs)%nat -> (1 <= nth i subs 0)%nat) ->
+  length grid = total_sub subs -> length simplex_for = length grid -> points <> [] ->
+  (forall row, In row simplices ->
+    exists a b c, row = [a; b; c] /\ (0 <= a < Z.of_nat (length points))%Z /\ (0 <= b < Z.of_nat (length points))%Z
+                  /\ (0 <= c < Z.of_nat (length points))%Z
+                  /\ crossR (vtxR points row 0) (vtxR points row 1) (vtxR points row 2) <> 0) ->
+  (forall t, In t simplex_for -> t = (-1)%Z \/ (0 <= t < Z.of_nat (length simplices))%Z) ->
+  let mp := fst (@del_mappings ROps grid simplex_for simplices points) in
+  let sz := snd (@del_mappings ROps grid simplex_for simplices points) in
+  let wt := @del_weights ROps grid points mp in
+  let P := length points in
+  exists M rows,
+    @mapping_matrix ROps mp sz wt P (count_unmasked m) (slim_for_sub m subs) (@sub_fractions ROps subs) = Ok M /\
+    @unique_from ROps mp sz wt P subs = Ok rows /\ length rows = count_unmasked m /\
+    forall i, (i < count_unmasked m)%nat ->
+      let '(u, w, n) := nth i rows ([], [], 0%nat) in
+      (n <= length u)%nat /\ length w = length u /\ NoDup (firstn n u)
+      /\ (forall k, (k < n)%nat -> (0 <= nth k u (-1) < Z.of_nat P)%Z)
+      /\ (forall k, (n <= k)%nat -> nth k u (-1)%Z = (-1)%Z /\ nth k w 0 = 0)
+      /\ (forall p, (p < P)%nat ->
+            sumR (map (fun k => if Z.eqb (nth k u (-1)%Z) (Z.of_nat p) then nth k w 0 else 0) (seq 0 n)) = mgetR M i p).
+Proof.
+  intros HL HS HG HF HP Hsimp Hidx. cbv zeta.
+  pose proof (del_mapper_ok m subs grid points simplices simplex_for HL HS HG HF HP Hsimp Hidx) as HM.
+  set (mp := fst (@del_mappings ROps grid simplex_for simplices points)) in *.
+  set (sz := snd (@del_mappings ROps grid simplex_for simplices points)) in *.
+  destruct (entry_block_formula m subs _ mp sz (@del_weights ROps grid points mp) HM) as [M [EM _]].
+  destruct (unique_encodes_dense m subs _ mp sz _ HM M EM) as [rows [Er [Lr Hr]]].
+  exists M, rows. repeat split; auto.
+Qed.
